@@ -494,6 +494,45 @@ pub fn check_case(r: &mut Report, d: &mut Driver, case: &ImportCase, tag: &str) 
     let live = real.unwrap();
     let Some(lspec) = core::Spec::new(&case.local_criteria) else { return };
     r.oracle_checked += 1;
+    // "Unparseable or unknown-criteria entries in a peer file are skipped individually without
+    // changing how the remaining entries are read": the same peer files with those entries
+    // deleted must import to the same thing
+    if prop == "C07" {
+        let mut clean_peers = case.peers.clone();
+        let mut dropped = 0usize;
+        for p in &mut clean_peers {
+            let known = p.crit_names();
+            // (an entry is an "unknown-criteria entry" when none of its criteria is known to the peer's
+            // table; unknown names next to known ones are dropped from the list, the entry stays)
+            let ok = |crit: &Vec<String>| crit.iter().any(|c| known.contains(c));
+            for l in p.audits.values_mut() {
+                let n0 = l.len();
+                l.retain(|a| a.parses && ok(&a.criteria));
+                dropped += n0 - l.len();
+            }
+            for l in p.wild.values_mut() {
+                let n0 = l.len();
+                l.retain(|w| w.parses && ok(&w.criteria));
+                dropped += n0 - l.len();
+            }
+            p.audits.retain(|_, l| !l.is_empty());
+            p.wild.retain(|_, l| !l.is_empty());
+        }
+        if dropped > 0 {
+            let clean = ImportCase { local_criteria: case.local_criteria.clone(), peers: clean_peers, exclude: case.exclude.clone(), cmap: case.cmap.clone(), lock: case.lock.clone() };
+            r.oracle_checked += 1;
+            r.count("skip-individually:checked");
+            match run_real(&clean) {
+                Ok(f2) => {
+                    let (a, b) = (canon_file(&cx, &live), canon_file(&cx, &f2));
+                    if a != b {
+                        r.fail("oracle", "C07/bad-entry-changes-how-the-rest-is-read", format!("with the {dropped} unparseable / unknown-criteria entries present the import is\n{a}\nwithout them it is\n{b}"), &descr);
+                    }
+                }
+                Err(e) => r.fail("oracle", "C07/bad-entry-changes-how-the-rest-is-read", format!("the file imports with the bad entries present but not with them deleted: {e}"), &descr),
+            }
+        }
+    }
     // what each raw entry may contribute, per C07
     let mut allowed: BTreeMap<(String, String), u64> = BTreeMap::new(); // (crate, kind-key) -> local bits
     let mut allowed_w: BTreeMap<(String, u64, i64, i64), u64> = BTreeMap::new();
